@@ -42,6 +42,7 @@ void carquet_verif_set_cpu_cap(int level);
 void carquet_verif_reset_detect(void);
 void carquet_verif_reset_dispatch(void);
 void carquet_verif_reset_crc32(void);
+void carquet_verif_zstd_thread_reset(void);
 }
 
 extern "C" void __sanitizer_print_stack_trace(void);
@@ -294,7 +295,9 @@ uint64_t api_ticks_last() { return g_last_api_ticks; }
 uint64_t api_granted_last() { return g_last_api_granted; }
 
 void set_cpu_cap(int level) { carquet_verif_set_cpu_cap(level); }
+void zstd_thread_reset() { carquet_verif_zstd_thread_reset(); }
 void make_library_cold() {
+    carquet_verif_zstd_thread_reset();      // the calling thread's cached context (pool threads reset theirs per task)
     carquet_verif_reset_detect();
     carquet_verif_reset_dispatch();
     carquet_verif_reset_crc32();
